@@ -429,9 +429,43 @@ def adaptive_specs() -> list[dict]:
     return out
 
 
+def big_specs(tier: str = "quick") -> list[dict]:
+    """Runs beyond the size of the randomized corpus: populations of 24-50, 20-40 metaepochs, dimensions up to 10, trees of
+    four levels, several candidates per deme and round."""
+    L = {"kind": "MetaepochLimit"}
+    rows = [
+        dict(dim=8, box="sym", fn="multi", hibernation=True, gsc=dict(L, n=40), sprout={"kind": "simple", "far": 0.05, "limit": 3},
+             levels=[{"engine": "SEA", "pop": 30, "gens": 2, "k_elites": 2}, {"engine": "CMA", "gens": 3, "lsc": dict(L, n=6)}]),
+        dict(dim=3, box="asym", fn="funnels", gsc=dict(L, n=25), sprout={"kind": "simple", "far": 0.03, "limit": 2},
+             levels=[{"engine": "DE", "pop": 40, "gens": 1}, {"engine": "SEA", "pop": 12, "gens": 1, "lsc": dict(L, n=8)},
+                     {"engine": "DE", "pop": 8, "gens": 1, "lsc": dict(L, n=5)}, {"engine": "CMA", "gens": 2, "lsc": dict(L, n=3)}]),
+        dict(dim=10, box="unit", fn="sphere", gsc={"kind": "SingularEvalLimit", "n": 6000}, sprout={"kind": "nbc", "gen": 2.0, "trunc": 0.7, "fil": 1.0, "limit": 3},
+             levels=[{"engine": "SHADE", "pop": 24, "gens": 2, "mem": 5}, {"engine": "CMA", "gens": 4, "lsc": {"kind": "FitnessSteadiness", "n": 3, "dev": 1e-6}}]),
+        dict(dim=2, box="sym", fn="funnels", hibernation=True, gsc=dict(L, n=30), sprout={"kind": "nbc", "gen": 1.0, "trunc": 1.0, "fil": 0.5, "limit": 2},
+             levels=[{"engine": "SEA", "pop": 24, "gens": 1}, {"engine": "SEA", "pop": 10, "gens": 2, "lsc": dict(L, n=7)},
+                     {"engine": "DE", "pop": 8, "gens": 1, "lsc": dict(L, n=4)}, {"engine": "LOCAL", "maxiter": 5}]),
+        dict(dim=4, box="huge", fn="offset", maximize=True, gsc=dict(L, n=35), sprout={"kind": "simple", "far": 0.02, "limit": 4},
+             levels=[{"engine": "DEd", "pop": 25, "gens": 2}, {"engine": "SEAX", "pop": 20, "gens": 2, "p_crossover": 0.7, "lsc": {"kind": "FitnessSteadiness", "n": 3, "dev": 1e-3}}]),
+        dict(dim=5, box="decimal", fn="multi", gsc=dict(L, n=20), reports=True,
+             sprout={"kind": "composed", "generator": "nbc", "gen": 1.0, "trunc": 1.0, "deme_filters": [["demelimit", 3]], "tree_filters": [["levellimit", 6], ["skipsame"]]},
+             levels=[{"engine": "LHS", "pop": 50}, {"engine": "CMAw", "gens": 2, "lsc": dict(L, n=4)}]),
+    ]
+    out = []
+    reps = 1 if tier == "quick" else 6
+    for k in range(reps):
+        for i, row in enumerate(rows):
+            sp = json.loads(json.dumps(row))
+            sp.update(name=f"big{k * len(rows) + i + 1}", seed=1500 + 17 * k + i, max_consults=9000, cpu_cap_s=400)
+            sp.setdefault("maximize", bool(k % 2))
+            if k % 3 == 2:
+                sp["dump_at"] = 5 + i
+            out.append(sp)
+    return out
+
+
 def gen_specs(seed: int, n_random: int, tier: str = "quick") -> list[dict]:
     r = random.Random(seed)
-    specs = repo_test_specs() + sweep_specs(tier) + lifecycle_specs() + engine_specs() + init_specs() + manual_specs() + penalty_specs() + tiny_specs() + partial_specs() + fidelity_specs() + adaptive_specs()
+    specs = repo_test_specs() + sweep_specs(tier) + lifecycle_specs() + engine_specs() + init_specs() + manual_specs() + penalty_specs() + tiny_specs() + partial_specs() + fidelity_specs() + adaptive_specs() + big_specs(tier)
     for i in range(n_random):
         specs.append(random_spec(r, i))
     return specs
